@@ -237,6 +237,18 @@ theorem c16_unschedulable_raises_no_loop (d : Diagram) (hwf : d.WF) (H : Nat →
       have := reaches_idx (fun w hw => ((execute_ok_facts hwf h).2 w hw).2.2) ha
       omega
 
+/-- Liveness, the converse of `c16_unschedulable_raises_no_loop`: if the external inputs are valid, the
+    pre-flight checks pass (unique wire per port, a handler for every module with outputs, a source for every
+    port), no port is fed both by a wire and externally, the wire graph has no cycle, all wires were accepted
+    and every handler answers every input with exactly its declared ports and honest labels — then `execute`
+    returns a report (and by the theorems above that report runs every module exactly once, in wire order,
+    on well-typed values).  So the other theorems are not about an executor that always raises. -/
+theorem c16_schedulable_diagram_runs (d : Diagram) (H : Nat → Option Handler)
+    (ext : List (Nat × List (Nat × Val))) (enforce : Bool) (mi : MInputs)
+    (hext : extPhase d ext (fun _ => []) = .ok mi) (hs : Schedulable d H mi) :
+    ∃ recs, (execute d H ext enforce).out = .ok recs :=
+  execute_live hext hs
+
 /-! ## capabilities -/
 
 /-- Required capabilities are the union over the modules (as a set: no repetitions). -/
@@ -404,6 +416,29 @@ private def exRawH : Nat → Option Handler := fun n => if n = 0 then some (fun 
 example : view (execute exRaw exRawH [] true) = (some .wireIntegrity, [], [], [0]) ∧
     view (execute exRaw exRawH [] false) = (none, [0, 1], [[], [(0, ⟨0, 0, 1⟩)]], [0]) :=
   ⟨by decide, by decide⟩
+
+/-- the hypotheses of `c16_schedulable_diagram_runs` are met by the example diagram -/
+example : ∃ mi, extPhase exD exExt (fun _ => []) = .ok mi ∧ Schedulable exD exH mi := by
+  have exHonest : Honest exD exH := by
+    intro m hm hd hH ins
+    have hmods : exD.modules = [⟨2, [(0, ⟨1, 0⟩), (1, ⟨0, 0⟩)], [], [3]⟩,
+        ⟨1, [(0, ⟨0, 1⟩)], [(0, ⟨1, 1⟩)], [1, 3]⟩, ⟨0, [], [(0, ⟨0, 2⟩)], [0]⟩] := by decide
+    rw [hmods] at hm
+    simp only [List.mem_cons, List.not_mem_nil, or_false] at hm
+    rcases hm with rfl | rfl | rfl
+    · simp [exH] at hH
+    · simp only [exH] at hH
+      simp only [show (1 : Nat) ≠ 0 by decide, if_false, if_true, Option.some.injEq] at hH
+      subst hH
+      exact ⟨_, _, rfl, rfl, rfl⟩
+    · simp only [exH, if_true, Option.some.injEq] at hH
+      subst hH
+      exact ⟨_, _, rfl, rfl, rfl⟩
+  refine ⟨_, rfl, (c16_built_diagrams_accepted exOps).1, (c16_built_diagrams_accepted exOps).2, exHonest,
+    by decide, by decide, ?_⟩
+  intro a ha
+  have := reaches_idx (order := [0, 1, 2]) (d := exD) (by decide) ha
+  omega
 
 example : exD.requiredCaps = [3, 1, 0] := by decide
 
